@@ -82,7 +82,10 @@ fn wants(job: &Value, what: &str) -> bool {
 }
 
 fn handle(job: &Value, scratch: &PathBuf) -> Value {
-    let src = job["src"].as_str().unwrap_or("").to_owned();
+    let mut src = job["src"].as_str().unwrap_or("").to_owned();
+    if let Some(seed) = job["relayout"].as_u64() {
+        src = relayout(&src, seed);
+    }
     let name = job["name"].as_str().unwrap_or("input.rs");
     let path = scratch.join(name);
     if let Some(parent) = path.parent() {
@@ -204,6 +207,10 @@ fn handle(job: &Value, scratch: &PathBuf) -> Value {
     if wants(job, "out") {
         res["out"] = json!(out_text);
     }
+    if wants(job, "src") {
+        res["src"] = json!(src);
+    }
+    res["src_h"] = json!(verif::fnv(src.as_bytes()));
     res["out_h"] = json!(verif::fnv(out_text.as_bytes()));
     res["out_len"] = json!(out_text.len());
     if wants(job, "syms") {
@@ -560,4 +567,51 @@ fn uses_projection(text: &str, edition: &str) -> Value {
         })
     }));
     r.unwrap_or(Value::Null)
+}
+
+
+/// Token-preserving re-layout: only whitespace tokens (as seen by rustc_lexer) are
+/// rewritten -- a whitespace run with a line break becomes 1..3 line breaks plus a random
+/// indentation, one without becomes 1..2 blanks.  Comments and literals are untouched.
+fn relayout(text: &str, seed: u64) -> String {
+    use rustc_lexer::TokenKind as T;
+    let mut rng = seed.wrapping_mul(0x9E37_79B9_7F4A_7C15) | 1;
+    let mut next = move || {
+        rng ^= rng << 13;
+        rng ^= rng >> 7;
+        rng ^= rng << 17;
+        rng
+    };
+    let mut out = String::with_capacity(text.len() + 64);
+    let mut pos = 0usize;
+    let mut prev_line_comment = false;
+    // a shebang line / frontmatter is kept as it is
+    let body_start = rustc_lexer::strip_shebang(text).unwrap_or(0);
+    out.push_str(&text[..body_start]);
+    pos += body_start;
+    for tok in rustc_lexer::tokenize(&text[body_start..]) {
+        let s = &text[pos..pos + tok.len as usize];
+        pos += tok.len as usize;
+        match tok.kind {
+            T::Whitespace => {
+                if s.contains('\n') || prev_line_comment {
+                    let n = 1 + (next() % 3) as usize;
+                    for _ in 0..n.min(if s.matches('\n').count() >= 2 { 3 } else { 1 }) {
+                        out.push('\n');
+                    }
+                    for _ in 0..(next() % 9) {
+                        out.push(' ');
+                    }
+                } else {
+                    out.push(' ');
+                    if next() % 4 == 0 {
+                        out.push(' ');
+                    }
+                }
+            }
+            _ => out.push_str(s),
+        }
+        prev_line_comment = matches!(tok.kind, T::LineComment { .. });
+    }
+    out
 }
